@@ -152,6 +152,10 @@ class Gen:
         self.ops.append([34, r, take, fate])
         self.sim[r].e = []
 
+    def default(self, r):
+        self.ops.append([68 if r < 2 else 168, r])
+        self.sim[r].e = []
+
     def with_capacity(self, r, good=None):
         c = self.caps[r] if (good if good is not None else self.r.random() < 0.5) else self.caps[r] + 1
         self.ops.append([35, r, c])
@@ -220,7 +224,8 @@ class Gen:
         self.ops.append([51, r, 1 if unchecked else 0, self.r.randint(100, 900), len(cs)] + cs)
 
     def clone(self, r, r2):
-        self.ops.append([60, r, r2])
+        code = 60 if (self.r.random() < 0.6 or r == r2) else 67   # 67: Clone::clone_from
+        self.ops.append([code, r, r2])
         if self.caps[r] == self.caps[r2]:
             self.sim[r2].e = list(self.sim[r].e)
 
@@ -320,7 +325,8 @@ class Gen:
         self.sim[r].e = []
 
     def s_clone(self, r, r2):
-        self.ops.append([160, r, r2])
+        code = 160 if (self.r.random() < 0.6 or r == r2) else 167
+        self.ops.append([code, r, r2])
         if self.caps[r] == self.caps[r2]:
             self.sim[r2].e = list(self.sim[r].e)
 
@@ -436,6 +442,7 @@ MENU_MAP_BULK = [
     (1, lambda g: g.from_iter(m_reg(g))),
     (0.5, lambda g: g.from_iter(m_reg(g), arr=True)),
     (0.3, lambda g: g.with_capacity(m_reg(g))),
+    (0.2, lambda g: g.default(m_reg(g))),
 ]
 MENU_MAP_FMT = [(1, lambda g: g.fmt(m_reg(g)))]
 MENU_MAP_SERDE = [(1, lambda g: g.serde(m_reg(g), m_reg(g)))]
@@ -462,6 +469,7 @@ MENU_SET_BULK = [
     (1, lambda g: g.s_eq(s_reg(g), s_reg(g))),
     (1, lambda g: g.s_from_iter(s_reg(g))),
     (0.4, lambda g: g.s_from_iter(s_reg(g), arr=True)),
+    (0.2, lambda g: g.default(s_reg(g))),
 ]
 MENU_SET_ALG = [
     (4, lambda g: g.s_alg(a=2, b=3) if g.r.random() < 0.5 else g.s_alg(a=3, b=2)),
